@@ -142,6 +142,9 @@ func init() {
 		return mkIte(args[0].(*Term), args[1].(*Term), args[2].(*Term))
 	}
 	harnessAPI["vIteInt"] = harnessAPI["vIteByte"]
+	harnessAPI["vDeepEqual"] = func(m *Machine, fr *frame, fn *ssa.Function, args []value) value {
+		return m.deepEqual(fr, args[0], args[1], 0)
+	}
 	harnessAPI["vAssume"] = func(m *Machine, fr *frame, fn *ssa.Function, args []value) value {
 		m.assume(args[0].(*Term), fr)
 		return nil
@@ -282,26 +285,100 @@ func fmtArgs(m *Machine, v value) string {
 	return strings.Join(parts, ",")
 }
 
+// sprintfLike implements the verbs the repository uses (%d %s %c %v %t %q %T %x %+v) for concrete
+// arguments (strings may be symbolic); anything else is rendered opaquely. Formatting is not the
+// subject of any property; determinism and the common verbs are what the code under test relies on.
 func sprintfLike(m *Machine, format str, va value) str {
-	// A light model of fmt: the format with arguments appended. Formatting is not the subject
-	// of any property; only non-emptiness and determinism are relied upon.
-	res := format
-	s, ok := va.(slice)
-	if ok && s.len > 0 {
+	f, ok := format.concrete()
+	if !ok {
+		return format
+	}
+	var args []value
+	if s, ok := va.(slice); ok && s.len > 0 {
 		arr := s.arr()
 		for i := 0; i < s.len; i++ {
-			res = concatStr(res, str{s: "|"})
-			switch a := arr[s.off+i].(type) {
-			case iface:
-				switch x := a.v.(type) {
-				case str:
+			args = append(args, arr[s.off+i])
+		}
+	}
+	res := str{}
+	ai := 0
+	lit := func(x string) { res = concatStr(res, str{s: x}) }
+	for i := 0; i < len(f); i++ {
+		if f[i] != '%' || i+1 >= len(f) {
+			lit(string(f[i]))
+			continue
+		}
+		i++
+		// flags / width are skipped
+		for i < len(f) && (f[i] == '+' || f[i] == '-' || f[i] == '#' || f[i] == ' ' || (f[i] >= '0' && f[i] <= '9') || f[i] == '.') {
+			i++
+		}
+		if i >= len(f) {
+			break
+		}
+		verb := f[i]
+		if verb == '%' {
+			lit("%")
+			continue
+		}
+		var a value
+		if ai < len(args) {
+			a = args[ai]
+			ai++
+		} else {
+			lit("%!" + string(verb) + "(MISSING)")
+			continue
+		}
+		inner := a
+		var dyn string
+		if ia, ok := a.(iface); ok {
+			inner = ia.v
+			if ia.t != nil {
+				dyn = ia.t.String()
+			}
+		}
+		switch verb {
+		case 'T':
+			lit(dyn)
+		case 'c':
+			if t, ok := inner.(*Term); ok && t.isConst() {
+				lit(string(rune(int32(t.c))))
+			} else if t, ok := inner.(*Term); ok && t.w == 8 {
+				res = concatStr(res, str{b: []*Term{t}})
+			} else {
+				lit("?")
+			}
+		case 's', 'v', 'd', 'q', 'x', 't':
+			switch x := inner.(type) {
+			case str:
+				if verb == 'q' {
+					lit("\"")
 					res = concatStr(res, x)
-				default:
-					res = concatStr(res, str{s: valString(a)})
+					lit("\"")
+				} else {
+					res = concatStr(res, x)
+				}
+			case *Term:
+				if x.isConst() {
+					if x.w == 0 {
+						if x.c == 1 {
+							lit("true")
+						} else {
+							lit("false")
+						}
+					} else if verb == 'x' {
+						lit(fmt.Sprintf("%x", x.c))
+					} else {
+						lit(fmt.Sprint(sx(x.c, x.w)))
+					}
+				} else {
+					lit("<sym>")
 				}
 			default:
-				res = concatStr(res, str{s: valString(a)})
+				lit(valString(a))
 			}
+		default:
+			lit(valString(a))
 		}
 	}
 	return res
@@ -491,4 +568,119 @@ func init() {
 	stubs["runtime.SetFinalizer"] = retNil
 	stubs["unicode/utf8.RuneError"] = nil
 	delete(stubs, "unicode/utf8.RuneError")
+}
+
+// deepEqual: structural equality of two heap values (the counterpart of reflect.DeepEqual for the
+// closed set of value kinds of the executor); pointers are followed, interfaces need identical dynamic types.
+func (m *Machine) deepEqual(fr *frame, a, b value, depth int) *Term {
+	if depth > 200 {
+		panic(unsupported("deepEqual: structure too deep or cyclic"))
+	}
+	switch x := a.(type) {
+	case nil:
+		return mkBool(b == nil)
+	case *Term:
+		y, ok := b.(*Term)
+		if !ok || x.w != y.w {
+			return termFalse
+		}
+		return mkEq(x, y)
+	case str:
+		y, ok := b.(str)
+		if !ok {
+			return termFalse
+		}
+		return strEq(x, y)
+	case float64:
+		y, ok := b.(float64)
+		return mkBool(ok && x == y)
+	case iface:
+		y, ok := b.(iface)
+		if !ok {
+			return termFalse
+		}
+		if x.t == nil || y.t == nil {
+			return mkBool(x.t == nil && y.t == nil)
+		}
+		if !types.Identical(x.t, y.t) {
+			return termFalse
+		}
+		return m.deepEqual(fr, x.v, y.v, depth+1)
+	case pointer:
+		y, ok := b.(pointer)
+		if !ok {
+			return termFalse
+		}
+		if x.isNil() || y.isNil() {
+			return mkBool(x.isNil() && y.isNil())
+		}
+		return m.deepEqual(fr, fr.load(x), fr.load(y), depth+1)
+	case structure:
+		y, ok := b.(structure)
+		if !ok || len(x) != len(y) {
+			return termFalse
+		}
+		res := termTrue
+		for i := range x {
+			res = mkAnd(res, m.deepEqual(fr, x[i], y[i], depth+1))
+			if res.isFalse() {
+				return res
+			}
+		}
+		return res
+	case array:
+		y, ok := b.(array)
+		if !ok || len(x) != len(y) {
+			return termFalse
+		}
+		res := termTrue
+		for i := range x {
+			res = mkAnd(res, m.deepEqual(fr, x[i], y[i], depth+1))
+			if res.isFalse() {
+				return res
+			}
+		}
+		return res
+	case slice:
+		y, ok := b.(slice)
+		if !ok || x.len != y.len {
+			return termFalse
+		}
+		if x.len == 0 {
+			return termTrue
+		}
+		xa, ya := x.arr(), y.arr()
+		res := termTrue
+		for i := 0; i < x.len; i++ {
+			res = mkAnd(res, m.deepEqual(fr, xa[x.off+i], ya[y.off+i], depth+1))
+			if res.isFalse() {
+				return res
+			}
+		}
+		return res
+	case *mapObj:
+		y, ok := b.(*mapObj)
+		if !ok {
+			return termFalse
+		}
+		if x == nil || y == nil {
+			return mkBool(x == nil && y == nil)
+		}
+		if x.n != y.n {
+			return termFalse
+		}
+		res := termTrue
+		for i, k := range x.keys {
+			if x.dead[i] {
+				continue
+			}
+			v2, present := m.mapGetNoFork(y, k)
+			if !present {
+				return termFalse
+			}
+			res = mkAnd(res, m.deepEqual(fr, x.vals[i], v2, depth+1))
+		}
+		return res
+	}
+	return mkBool(false)
 }
